@@ -23,12 +23,14 @@ type procSchedCase struct {
 	Senders     [][]int `json:"senders"`
 	PanicOn     []int   `json:"panic_on"`
 	MaxRestarts int     `json:"max_restarts"`
-	Poison      string  `json:"poison"`      // "", "poison", "stop": issued by an extra goroutine
-	SelfPoison  int     `json:"self_poison"` // payload whose handler calls Poison(self), 0 = none
-	Walks       int     `json:"walks"`
-	Seed        int64   `json:"seed"`
-	Choices     []int   `json:"choices"`
-	Mode        string  `json:"mode"`
+	Poison      string  `json:"poison"` // "", "poison", "stop": issued by an extra goroutine
+	// Poisoners: further goroutines each calling Stop ("stop") or Poison ("poison") on the actor
+	Poisoners  []string `json:"poisoners"`
+	SelfPoison int      `json:"self_poison"` // payload whose handler calls Poison(self), 0 = none
+	Walks      int      `json:"walks"`
+	Seed       int64    `json:"seed"`
+	Choices    []int    `json:"choices"`
+	Mode       string   `json:"mode"`
 }
 
 type psRecv struct {
@@ -44,6 +46,8 @@ type psObs struct {
 	Stuck    bool     `json:"stuck"`
 	Sent     []int    `json:"sent"`
 	Dead     []int    `json:"dead"` // payloads reported as dead letters
+	// for every Stop/Poison context created: did it become done
+	PillsDone []bool `json:"pills_done"`
 }
 
 type psWorld struct {
@@ -56,6 +60,7 @@ type psWorld struct {
 	boomed  map[int]bool
 	dead    []int
 	sent    []int
+	pills   []interface{ Err() error }
 }
 
 type psActor struct {
@@ -161,13 +166,22 @@ func procScenario(c procSchedCase) func() vsched.Scenario {
 						}
 					})
 				}
+				kinds := append([]string{}, c.Poisoners...)
 				if c.Poison != "" {
+					kinds = append(kinds, c.Poison)
+				}
+				for _, k := range kinds {
+					k := k
 					vsched.Go(func() {
-						if c.Poison == "stop" {
-							e.Stop(target)
+						var ctx interface{ Err() error }
+						if k == "stop" {
+							ctx = e.Stop(target)
 						} else {
-							e.Poison(target)
+							ctx = e.Poison(target)
 						}
+						w.mu.Lock()
+						w.pills = append(w.pills, ctx)
+						w.mu.Unlock()
 					})
 				}
 			},
@@ -175,7 +189,10 @@ func procScenario(c procSchedCase) func() vsched.Scenario {
 				w.mu.Lock()
 				defer w.mu.Unlock()
 				o := psObs{Recvs: append([]psRecv{}, w.recvs...), Overlap: w.overlap, Deadlock: deadlock, Terminal: terminal,
-					Sent: append([]int{}, w.sent...), Dead: append([]int{}, w.dead...)}
+					Sent: append([]int{}, w.sent...), Dead: append([]int{}, w.dead...), PillsDone: []bool{}}
+				for _, p := range w.pills {
+					o.PillsDone = append(o.PillsDone, p.Err() != nil)
+				}
 				return o
 			},
 		}
@@ -184,6 +201,13 @@ func procScenario(c procSchedCase) func() vsched.Scenario {
 
 func psBad(o any) bool {
 	ob := o.(psObs)
+	if ob.Terminal {
+		for _, d := range ob.PillsDone {
+			if !d {
+				return true
+			}
+		}
+	}
 	return ob.Overlap || ob.Deadlock
 }
 
@@ -202,7 +226,12 @@ func runProcSched(raw json.RawMessage) (any, error) {
 	if c.Walks == 0 {
 		c.Walks = 200
 	}
-	res := vsched.Walks(mk, c.Walks, rnd.Intn, 20000, 3, psBad)
+	var res vsched.Result
+	if c.Mode == "pct" {
+		res = vsched.WalksPCT(mk, c.Walks, rnd.Intn, 3, 20000, 3, psBad)
+	} else {
+		res = vsched.Walks(mk, c.Walks, rnd.Intn, 20000, 3, psBad)
+	}
 	// keep the output small: traces of the samples are not needed
 	for i := range res.Samples {
 		res.Samples[i].Trace = nil
